@@ -1,4 +1,426 @@
 /- helper lemmas for C15 (heap machine invariants) -/
 import Panoptica.Model.Purity
 namespace Panoptica.Pure
+
+/-- every aggregator key list exists -/
+def AggOk (w : World) : Prop := ∀ l : Nat, l ∈ w.aggKeys → l < w.heap.length
+
+/-- the inductive well-formedness invariant: aggregator key lists exist (unconditionally), every
+    cached location exists, is not an aggregator's list and is private to its evaluator -/
+def WFs (w : World) : Prop :=
+  AggOk w ∧ ∀ (e : Nat) (ev : Evaluator) (c : Nat), w.evals[e]? = some ev → ev.cache = some c →
+    c < w.heap.length ∧ c ∉ w.aggKeys ∧
+    ∀ (e' : Nat) (ev' : Evaluator), w.evals[e']? = some ev' → ev'.cache = some c → e' = e
+
+abbrev rk (ev : Evaluator) : List String := resultKeys ev.cfg.evalMetrics ev.cfg.globalMetrics
+
+/-- the three possible behaviours of the fixed `resulting_metric_keys` -/
+theorem getKeys_true_cases (w : World) (e : Nat) :
+    (w.evals[e]? = none ∧ getKeys true w e = none) ∨
+    (∃ ev c, w.evals[e]? = some ev ∧ ev.cache = some c ∧
+      getKeys true w e = some ({ w with heap := w.heap ++ [w.heap.getD c []] }, w.heap.length)) ∨
+    (∃ ev, w.evals[e]? = some ev ∧ ev.cache = none ∧
+      getKeys true w e = some ({ w with heap := w.heap ++ [rk ev, rk ev],
+                                        evals := w.evals.set e { ev with cache := some w.heap.length } },
+                               w.heap.length + 1)) := by
+  unfold getKeys
+  cases h : w.evals[e]? with
+  | none => simp
+  | some ev =>
+    cases hc : ev.cache with
+    | none => simp [alloc, hc]
+    | some c => simp [alloc, hc]
+
+
+/-! ### shapes of the successor world -/
+
+theorem advertised_cached {w : World} {e : Nat} {ev : Evaluator} {c : Loc}
+    (h : w.evals[e]? = some ev) (hc : ev.cache = some c) :
+    advertised w e = some (w.heap.getD c []) := by
+  simp [advertised, h, hc]
+
+theorem advertised_uncached {w : World} {e : Nat} {ev : Evaluator}
+    (h : w.evals[e]? = some ev) (hc : ev.cache = none) :
+    advertised w e = some (rk ev) := by
+  simp [advertised, h, hc]
+
+theorem advertised_none {w : World} {e : Nat} (h : w.evals[e]? = none) :
+    advertised w e = none := by
+  simp [advertised, h]
+
+/-- growing the heap at the end (and registering fresh locations as aggregator lists) -/
+theorem WFs_grow {w : World} (hw : WFs w) (ext : List (List String)) (agg : List Nat)
+    (hagg : ∀ l : Nat, l ∈ agg → w.heap.length ≤ l ∧ l < w.heap.length + ext.length) :
+    WFs { w with heap := w.heap ++ ext, aggKeys := w.aggKeys ++ agg } := by
+  obtain ⟨ha, hc⟩ := hw
+  refine ⟨?_, ?_⟩
+  · intro l hl
+    dsimp only at hl ⊢
+    simp only [List.mem_append] at hl
+    simp only [List.length_append]
+    rcases hl with hl | hl
+    · have := ha l hl; omega
+    · exact (hagg l hl).2
+  · intro e ev c he hcache
+    obtain ⟨h1, h2, h3⟩ := hc e ev c he hcache
+    dsimp only at he ⊢
+    refine ⟨?_, ?_, h3⟩
+    · simp only [List.length_append]; omega
+    · simp only [List.mem_append, not_or]
+      refine ⟨h2, fun hin => ?_⟩
+      have := (hagg c hin).1
+      omega
+
+theorem advertised_grow {w : World} (hw : WFs w) (ext : List (List String)) (agg : List Nat)
+    (e : Nat) :
+    advertised { w with heap := w.heap ++ ext, aggKeys := w.aggKeys ++ agg } e = advertised w e := by
+  unfold advertised
+  cases he : w.evals[e]? with
+  | none => simp
+  | some ev =>
+    cases hc : ev.cache with
+    | none => simp [hc]
+    | some c =>
+      have := (hw.2 e ev c he hc).1
+      simp [hc, List.getD_eq_getElem?_getD, List.getElem?_append_left this]
+
+
+/-- filling an empty cache with a location nobody else uses -/
+theorem WFs_setCache {w : World} (hw : WFs w) {e : Nat} {ev : Evaluator} (c : Nat)
+    (_he : w.evals[e]? = some ev) (hlt : c < w.heap.length) (hagg : c ∉ w.aggKeys)
+    (hfresh : ∀ (e' : Nat) (ev' : Evaluator), w.evals[e']? = some ev' → ev'.cache ≠ some c) :
+    WFs { w with evals := w.evals.set e { ev with cache := some c } } := by
+  obtain ⟨ha, hc⟩ := hw
+  refine ⟨ha, ?_⟩
+  intro e1 ev1 c1 he1 hc1
+  dsimp only at he1 ⊢
+  rw [List.getElem?_set] at he1
+  split at he1
+  · -- e1 = e
+    rename_i heq
+    subst heq
+    split at he1
+    · simp only [Option.some.injEq] at he1
+      subst he1
+      simp only [Option.some.injEq] at hc1
+      subst hc1
+      refine ⟨hlt, hagg, ?_⟩
+      intro e2 ev2 he2 hc2
+      rw [List.getElem?_set] at he2
+      split at he2
+      · rename_i h; exact h.symm
+      · exact absurd hc2 (hfresh e2 ev2 he2)
+    · cases he1
+  · rename_i hne
+    obtain ⟨h1, h2, h3⟩ := hc e1 ev1 c1 he1 hc1
+    refine ⟨h1, h2, ?_⟩
+    intro e2 ev2 he2 hc2
+    rw [List.getElem?_set] at he2
+    split at he2
+    · rename_i heq
+      subst heq
+      split at he2
+      · simp only [Option.some.injEq] at he2
+        subst he2
+        simp only [Option.some.injEq] at hc2
+        subst hc2
+        exact absurd hc1 (hfresh e1 ev1 he1)
+      · cases he2
+    · exact h3 e2 ev2 he2 hc2
+
+theorem advertised_setCache {w : World} {e : Nat} {ev : Evaluator} (c : Nat)
+    (he : w.evals[e]? = some ev) (hnone : ev.cache = none) (hval : w.heap.getD c [] = rk ev)
+    (e' : Nat) :
+    advertised { w with evals := w.evals.set e { ev with cache := some c } } e' = advertised w e' := by
+  unfold advertised
+  dsimp only
+  rw [List.getElem?_set]
+  by_cases heq : e = e'
+  · subst heq
+    have hlt : e < w.evals.length := by
+      rcases Nat.lt_or_ge e w.evals.length with h | h
+      · exact h
+      · rw [List.getElem?_eq_none h] at he; cases he
+    rw [if_pos rfl, if_pos hlt, he]
+    simp only [hnone, hval]
+  · simp [heq]
+
+
+/-- the uncached branch of `getKeys true`, optionally followed by registering the copy -/
+theorem WFs_fill {w : World} (hw : WFs w) {e : Nat} {ev : Evaluator}
+    (he : w.evals[e]? = some ev) (y : List String) (agg : List Nat)
+    (hagg : ∀ l : Nat, l ∈ agg → l = w.heap.length + 1) :
+    WFs { heap := w.heap ++ [rk ev, y],
+          evals := w.evals.set e { ev with cache := some w.heap.length },
+          aggKeys := w.aggKeys ++ agg } := by
+  have h1 : WFs { w with heap := w.heap ++ [rk ev, y], aggKeys := w.aggKeys ++ agg } :=
+    WFs_grow hw _ _ (by intro l hl; have := hagg l hl; simp only [List.length_cons, List.length_nil]; omega)
+  refine WFs_setCache h1 (e := e) (ev := ev) w.heap.length he ?_ ?_ ?_
+  · simp only [List.length_append, List.length_cons, List.length_nil]; omega
+  · simp only [List.mem_append, not_or]
+    refine ⟨fun hin => ?_, fun hin => ?_⟩
+    · have := hw.1 _ hin; omega
+    · have := hagg _ hin; omega
+  · intro e' ev' he' hc'
+    have := (hw.2 e' ev' _ he' hc').1
+    omega
+
+theorem advertised_fill {w : World} (hw : WFs w) {e : Nat} {ev : Evaluator}
+    (he : w.evals[e]? = some ev) (hnone : ev.cache = none) (y : List String) (agg : List Nat)
+    (e' : Nat) :
+    advertised { heap := w.heap ++ [rk ev, y],
+                 evals := w.evals.set e { ev with cache := some w.heap.length },
+                 aggKeys := w.aggKeys ++ agg } e' = advertised w e' := by
+  rw [← advertised_grow hw [rk ev, y] agg e']
+  exact advertised_setCache (w := { w with heap := w.heap ++ [rk ev, y], aggKeys := w.aggKeys ++ agg })
+    w.heap.length he hnone (by simp [List.getD_eq_getElem?_getD]) e'
+
+theorem WFs_newEval {w : World} (hw : WFs w) (cfg : EvalCfg) :
+    WFs { w with evals := w.evals ++ [{ cfg := cfg, cache := none }] } := by
+  obtain ⟨ha, hc⟩ := hw
+  have key : ∀ (e : Nat) (ev : Evaluator) (c : Nat),
+      (w.evals ++ [{ cfg := cfg, cache := none }])[e]? = some ev → ev.cache = some c →
+      w.evals[e]? = some ev := by
+    intro e ev c he hcache
+    rw [List.getElem?_append] at he
+    split at he
+    · exact he
+    · rw [List.getElem?_singleton] at he
+      split at he
+      · simp only [Option.some.injEq] at he; subst he; cases hcache
+      · cases he
+  refine ⟨ha, ?_⟩
+  intro e ev c he hcache
+  dsimp only at he ⊢
+  obtain ⟨h1, h2, h3⟩ := hc e ev c (key e ev c he hcache) hcache
+  exact ⟨h1, h2, fun e' ev' he' hc' => h3 e' ev' (key e' ev' c he' hc') hc'⟩
+
+theorem advertised_newEval {w : World} (cfg : EvalCfg) {e : Nat} {ks : List String}
+    (h : advertised w e = some ks) :
+    advertised { w with evals := w.evals ++ [{ cfg := cfg, cache := none }] } e = some ks := by
+  unfold advertised at h ⊢
+  dsimp only
+  cases he : w.evals[e]? with
+  | none => rw [he] at h; cases h
+  | some ev =>
+    have hlt : e < w.evals.length := by
+      rcases Nat.lt_or_ge e w.evals.length with h | h
+      · exact h
+      · rw [List.getElem?_eq_none h] at he; cases he
+    rw [List.getElem?_append_left hlt, he]
+    rw [he] at h
+    exact h
+
+theorem set_last (l : List (List String)) (x y : List String) :
+    (l ++ [x]).set l.length y = l ++ [y] := by
+  simp
+
+theorem set_last2 (l : List (List String)) (a x y : List String) :
+    (l ++ [a, x]).set (l.length + 1) y = l ++ [a, y] := by
+  simp
+
+
+/-- one step preserves the strong invariant and every advertised key list -/
+theorem step_strong (w : World) (hw : WFs w) (op : Op) :
+    WFs (step w op).1 ∧
+    ∀ (e : Nat) (ks : List String), advertised w e = some ks → advertised (step w op).1 e = some ks := by
+  cases op with
+  | newEvaluator cfg =>
+    exact ⟨WFs_newEval hw cfg, fun e ks h => advertised_newEval cfg h⟩
+  | keys e =>
+    rcases getKeys_true_cases w e with ⟨_, hg⟩ | ⟨ev, c, he, hc, hg⟩ | ⟨ev, he, hc, hg⟩
+    · simp only [step, stepWith, hg]
+      exact ⟨hw, fun _ _ h => h⟩
+    · simp only [step, stepWith, hg]
+      have h1 := WFs_grow hw [w.heap.getD c []] [] (by intro l hl; cases hl)
+      have h2 := advertised_grow hw [w.heap.getD c []] []
+      simp only [List.append_nil] at h1 h2
+      exact ⟨h1, fun e' ks h => by rw [h2 e']; exact h⟩
+    · simp only [step, stepWith, hg]
+      have h1 := WFs_fill hw he (rk ev) [] (by intro l hl; cases hl)
+      have h2 := advertised_fill hw he hc (rk ev) []
+      simp only [List.append_nil] at h1 h2
+      exact ⟨h1, fun e' ks h => by rw [h2 e']; exact h⟩
+  | newAggregator e b =>
+    rcases getKeys_true_cases w e with ⟨_, hg⟩ | ⟨ev, c, he, hc, hg⟩ | ⟨ev, he, hc, hg⟩
+    · simp only [step, stepWith, hg]
+      exact ⟨hw, fun _ _ h => h⟩
+    · simp only [step, stepWith, hg]
+      cases b with
+      | false =>
+        simp only [Bool.false_eq_true, if_false]
+        have h1 := WFs_grow hw [w.heap.getD c []] [w.heap.length]
+          (by intro l hl; simp only [List.mem_singleton] at hl; subst hl; simp)
+        have h2 := advertised_grow hw [w.heap.getD c []] [w.heap.length]
+        exact ⟨h1, fun e' ks h => by rw [h2 e']; exact h⟩
+      | true =>
+        simp only [if_true, set_last]
+        have h1 := WFs_grow hw [(w.heap ++ [w.heap.getD c []]).getD w.heap.length [] ++ ["computation_time"]]
+          [w.heap.length]
+          (by intro l hl; simp only [List.mem_singleton] at hl; subst hl; simp)
+        have h2 := advertised_grow hw
+          [(w.heap ++ [w.heap.getD c []]).getD w.heap.length [] ++ ["computation_time"]] [w.heap.length]
+        exact ⟨h1, fun e' ks h => by rw [h2 e']; exact h⟩
+    · simp only [step, stepWith, hg]
+      cases b with
+      | false =>
+        simp only [Bool.false_eq_true, if_false]
+        have h1 := WFs_fill hw he (rk ev) [w.heap.length + 1]
+          (by intro l hl; simp only [List.mem_singleton] at hl; exact hl)
+        have h2 := advertised_fill hw he hc (rk ev) [w.heap.length + 1]
+        exact ⟨h1, fun e' ks h => by rw [h2 e']; exact h⟩
+      | true =>
+        simp only [if_true, set_last2]
+        have h1 := WFs_fill hw he
+          ((w.heap ++ [rk ev, rk ev]).getD (w.heap.length + 1) [] ++ ["computation_time"]) [w.heap.length + 1]
+          (by intro l hl; simp only [List.mem_singleton] at hl; exact hl)
+        have h2 := advertised_fill hw he hc
+          ((w.heap ++ [rk ev, rk ev]).getD (w.heap.length + 1) [] ++ ["computation_time"]) [w.heap.length + 1]
+        exact ⟨h1, fun e' ks h => by rw [h2 e']; exact h⟩
+  | evaluate e input o =>
+    simp only [step, stepWith]
+    split <;> exact ⟨hw, fun _ _ h => h⟩
+  | saveConfig e =>
+    simp only [step, stepWith]
+    split <;> exact ⟨hw, fun _ _ h => h⟩
+
+
+/-! ### evaluators along a step -/
+
+theorem getElem?_lt {α} {l : List α} {i : Nat} {a : α} (h : l[i]? = some a) : i < l.length := by
+  rcases Nat.lt_or_ge i l.length with h' | h'
+  · exact h'
+  · rw [List.getElem?_eq_none h'] at h; cases h
+
+/-- the evaluator list after a step: old, old plus one fresh uncached evaluator, or old with one
+    cache filled -/
+theorem step_evals_cases (w : World) (op : Op) :
+    (step w op).1.evals = w.evals ∨
+    (∃ cfg, (step w op).1.evals = w.evals ++ [{ cfg := cfg, cache := none }]) ∨
+    (∃ e0 ev0 c, w.evals[e0]? = some ev0 ∧
+      (step w op).1.evals = w.evals.set e0 { ev0 with cache := some c }) := by
+  cases op with
+  | newEvaluator cfg => exact Or.inr (Or.inl ⟨cfg, rfl⟩)
+  | keys e =>
+    rcases getKeys_true_cases w e with ⟨_, hg⟩ | ⟨ev, c, he, hc, hg⟩ | ⟨ev, he, hc, hg⟩
+    · simp only [step, stepWith, hg]; exact Or.inl trivial
+    · simp only [step, stepWith, hg]; exact Or.inl trivial
+    · simp only [step, stepWith, hg]; exact Or.inr (Or.inr ⟨e, ev, _, he, rfl⟩)
+  | newAggregator e b =>
+    rcases getKeys_true_cases w e with ⟨_, hg⟩ | ⟨ev, c, he, hc, hg⟩ | ⟨ev, he, hc, hg⟩
+    · simp only [step, stepWith, hg]; exact Or.inl trivial
+    · simp only [step, stepWith, hg]; cases b <;> exact Or.inl rfl
+    · simp only [step, stepWith, hg]; cases b <;> exact Or.inr (Or.inr ⟨e, ev, _, he, rfl⟩)
+  | evaluate e input o =>
+    simp only [step, stepWith]; split <;> exact Or.inl rfl
+  | saveConfig e =>
+    simp only [step, stepWith]; split <;> exact Or.inl rfl
+
+theorem cfg_stable_step (w : World) (op : Op) (e : Nat) (ev : Evaluator) (h : w.evals[e]? = some ev) :
+    ∃ ev', (step w op).1.evals[e]? = some ev' ∧ ev'.cfg = ev.cfg := by
+  have hlt := getElem?_lt h
+  rcases step_evals_cases w op with h1 | ⟨cfg, h1⟩ | ⟨e0, ev0, c, h0, h1⟩
+  · rw [h1]; exact ⟨ev, h, rfl⟩
+  · rw [h1, List.getElem?_append_left hlt]; exact ⟨ev, h, rfl⟩
+  · rw [h1, List.getElem?_set]
+    by_cases heq : e0 = e
+    · subst heq
+      rw [h] at h0
+      simp only [Option.some.injEq] at h0
+      subst h0
+      rw [if_pos rfl, if_pos hlt]
+      exact ⟨_, rfl, rfl⟩
+    · rw [if_neg heq]; exact ⟨ev, h, rfl⟩
+
+/-- an evaluator present after a step either existed before with the same configuration, or is
+    brand new and has an empty cache -/
+theorem step_evals_origin (w : World) (op : Op) (e : Nat) (ev' : Evaluator)
+    (h : (step w op).1.evals[e]? = some ev') :
+    (∃ ev, w.evals[e]? = some ev ∧ ev'.cfg = ev.cfg) ∨ ev'.cache = none := by
+  rcases step_evals_cases w op with h1 | ⟨cfg, h1⟩ | ⟨e0, ev0, c, h0, h1⟩
+  · rw [h1] at h; exact Or.inl ⟨ev', h, rfl⟩
+  · rw [h1, List.getElem?_append] at h
+    split at h
+    · exact Or.inl ⟨ev', h, rfl⟩
+    · rw [List.getElem?_singleton] at h
+      split at h
+      · simp only [Option.some.injEq] at h; subst h; exact Or.inr rfl
+      · cases h
+  · rw [h1, List.getElem?_set] at h
+    by_cases heq : e0 = e
+    · subst heq
+      rw [if_pos rfl] at h
+      split at h
+      · simp only [Option.some.injEq] at h; subst h
+        exact Or.inl ⟨ev0, h0, rfl⟩
+      · cases h
+    · rw [if_neg heq] at h; exact Or.inl ⟨ev', h, rfl⟩
+
+theorem step_evaluate (w : World) (e input : Nat) (o : Opts) (ev : Evaluator)
+    (h : w.evals[e]? = some ev) :
+    (step w (Op.evaluate e input o)).2
+      = Out.result ev.cfg input (o.saveGroupTimes.getD ev.cfg.saveGroupTimes) := by
+  simp only [step, stepWith, h]
+
+theorem step_saveConfig (w : World) (e : Nat) (ev : Evaluator) (h : w.evals[e]? = some ev) :
+    (step w (Op.saveConfig e)).2 = Out.config ev.cfg := by
+  simp only [step, stepWith, h]
+
+/-! ### runs -/
+
+theorem runOps_nil (stp : World → Op → World × Out) (w : World) : runOps stp w [] = (w, []) := rfl
+
+theorem runOps_cons_fst (stp : World → Op → World × Out) (w : World) (op : Op) (ops : List Op) :
+    (runOps stp w (op :: ops)).1 = (runOps stp (stp w op).1 ops).1 := rfl
+
+/-- running `a ++ b` is running `a`, then `b` from the world reached -/
+theorem runOps_append_fst (stp : World → Op → World × Out) (w : World) (a b : List Op) :
+    (runOps stp w (a ++ b)).1 = (runOps stp (runOps stp w a).1 b).1 := by
+  induction a generalizing w with
+  | nil => rfl
+  | cons op a ih =>
+    rw [List.cons_append, runOps_cons_fst, runOps_cons_fst, ih]
+
+/-- invariants of single steps lift to runs -/
+theorem runOps_invariant (P : World → Prop) (hstep : ∀ w op, P w → P (step w op).1)
+    (w : World) (hw : P w) (ops : List Op) : P (runOps step w ops).1 := by
+  induction ops generalizing w with
+  | nil => exact hw
+  | cons op ops ih => rw [runOps_cons_fst]; exact ih _ (hstep w op hw)
+
+/-- the full invariant: strong well-formedness, and every evaluator advertises exactly the keys
+    its configuration determines -/
+def Good (w : World) : Prop :=
+  WFs w ∧ ∀ (e : Nat) (ev : Evaluator), w.evals[e]? = some ev → advertised w e = some (rk ev)
+
+theorem Good_empty : Good empty := by
+  refine ⟨⟨?_, ?_⟩, ?_⟩
+  · intro l hl; cases hl
+  · intro e ev c he; simp [empty] at he
+  · intro e ev he; simp [empty] at he
+
+theorem Good_step (w : World) (op : Op) (hw : Good w) : Good (step w op).1 := by
+  obtain ⟨hwf, hadv⟩ := hw
+  obtain ⟨hwf', hst⟩ := step_strong w hwf op
+  refine ⟨hwf', ?_⟩
+  intro e ev' he'
+  rcases step_evals_origin w op e ev' he' with ⟨ev, he, hcfg⟩ | hnone
+  · have := hst e _ (hadv e ev he)
+    rw [this]; unfold rk; rw [hcfg]
+  · exact advertised_uncached he' hnone
+
+theorem Good_run (ops : List Op) : Good (runOps step empty ops).1 :=
+  runOps_invariant Good Good_step empty Good_empty ops
+
+theorem cfg_stable_run (w : World) (ops : List Op) (e : Nat) (ev : Evaluator)
+    (h : w.evals[e]? = some ev) :
+    ∃ ev', (runOps step w ops).1.evals[e]? = some ev' ∧ ev'.cfg = ev.cfg := by
+  induction ops generalizing w ev with
+  | nil => exact ⟨ev, h, rfl⟩
+  | cons op ops ih =>
+    obtain ⟨ev1, h1, hc1⟩ := cfg_stable_step w op e ev h
+    obtain ⟨ev2, h2, hc2⟩ := ih (step w op).1 ev1 h1
+    rw [runOps_cons_fst]
+    exact ⟨ev2, h2, hc2.trans hc1⟩
+
 end Panoptica.Pure
